@@ -136,10 +136,19 @@ __attribute__((constructor)) static void trusim_init(void) {
     if (cpu && *cpu) { struct rlimit r; r.rlim_cur = strtoul(cpu, NULL, 10); r.rlim_max = r.rlim_cur + 1; setrlimit(RLIMIT_CPU, &r); }
     if (as && *as) { struct rlimit r; r.rlim_cur = r.rlim_max = strtoull(as, NULL, 10); setrlimit(RLIMIT_AS, &r); }
     { struct rlimit r; r.rlim_cur = r.rlim_max = 0; setrlimit(RLIMIT_CORE, &r); }
+    /* no output of a corpus-sized input comes near 64 MiB: a file growing beyond that is a runaway
+     * (the sandbox is a tmpfs, i.e. RAM); SIGXFSZ then ends the run and is reported as such */
+    { struct rlimit r; r.rlim_cur = r.rlim_max = 64ul << 20; setrlimit(RLIMIT_FSIZE, &r); }
 }
 
 static void logev(long seq, const char *op, int fd, const char *path, long req, long ret, int err, int inj) {
     if (g_logfd < 0) return;
+    /* a run that loops over an I/O call forever must not fill the (RAM-backed) sandbox with its log */
+    static long n_logged = 0;
+    if (++n_logged > 100000) {
+        if (n_logged == 100001) raw(SYS_write, g_logfd, (long)"- logcap -1 - 0 0 0 real\n", 25, 0);
+        return;
+    }
     char buf[320];
     int n;
     if (seq >= 0) n = snprintf(buf, sizeof buf, "%ld %s %d %s %ld %ld %d %s\n", seq, op, fd, path && *path ? path : "-", req, ret, err, inj ? "inj" : "real");
